@@ -974,6 +974,24 @@ def switch_on(body, b):
                     if k in rv:
                         info["kind"] = k if k != "discr" else "discr"
                         info["place" if k == "discr" else k] = rv[k]
+    # `let flag = a == 0; .. if flag` : the switch reads a copy of a local whose single definition is the comparison
+    seen = set()
+    while info["kind"] == "use" and len(seen) < 6:
+        q = op_place(info["use"])
+        if q is None or q["p"] or q["l"] in seen:
+            break
+        seen.add(q["l"])
+        ds = [d for d in body.defs.get(q["l"], []) if d[0] in ("stmt", "call")]
+        if len(ds) != 1 or ds[0][0] != "stmt":
+            break
+        rv = ds[0][3]
+        for k in ("discr", "bin", "un", "use"):
+            if k in rv:
+                info["kind"] = k
+                info["place" if k == "discr" else k] = rv[k]
+                break
+        else:
+            break
     return info
 
 
